@@ -107,6 +107,10 @@ def ref_encode(t, v, o=PLAIN, tvmap=None):
     if k == "enum":
         return v.value
     if k == "stype":
+        ann = tinfo.stype_annotations(ti.type)
+        if ann:
+            # use_annotations=True: what _serialize returns is rendered according to its return annotation
+            return ref_encode(ann[0], v._serialize(), o, tvmap)
         return v._serialize()
     if k == "literal":
         for lv in ti.args:
@@ -262,6 +266,9 @@ def ref_decode(t, d, tvmap=None, o=PLAIN):
     if k == "enum":
         return ti.type(d)
     if k == "stype":
+        ann = tinfo.stype_annotations(ti.type)
+        if ann:
+            return ti.type._deserialize(ref_decode(ann[1], d, tvmap, o))
         return ti.type._deserialize(d)
     if k == "literal":
         for lv in ti.args:
@@ -447,6 +454,20 @@ def decode_dataclass(ti, d, tvmap, o):
             kwargs[n] = val  # documented field option: the value is taken over unchanged
             continue
         des = f.metadata.get("deserialize")
+        if des in ("as_dict", "as_list") and tinfo.info(ft, tv).kind == "namedtuple":
+            # documented field option: the named tuple engine of this field
+            import copy as _copy
+
+            o2 = _copy.copy(o)
+            o2.namedtuple_as_dict = des == "as_dict"
+            try:
+                kwargs[n] = ref_decode(ft, val, tv, o2)
+            except RefError as e:
+                raise RefError("invalid", field_name=n, field_value=val, holder=cls) from e
+            except Exception as e:
+                _cf(e)
+                raise RefError("invalid", field_name=n, field_value=val, holder=cls) from e
+            continue
         if callable(des):
             # documented field option: the callable replaces the type's own deserialization
             try:
